@@ -211,12 +211,16 @@ def processLine (acc : Acc) (line : String) : Acc :=
         let implPost := implGhost acc.cur implPost0 op implOk implLog
         let negative := isNeg (rkv.get "p") || isNeg (rkv.get "q") || isNeg (dkv.get "prov")
         let mres := step acc.env acc.cur op
+        -- `later=1`: a later message of the same transaction failed (class `rej:later` when this message itself had
+        -- succeeded): the transaction's branch is discarded (`deliver`), nothing changed, whatever the handler did
+        let later := akv.get "later" == "1"
+        let handlerOk := match mres with | .ok _ => true | .error _ => false
         let (modelOk, modelResp, modelPost, modelRej) :=
           match mres with
-          | .ok (s', r) => (true, r, s', "")
+          | .ok (s', r) => if later then (false, Resp.none, acc.cur, "later") else (true, r, s', "")
           | .error e => (false, Resp.none, acc.cur, rejName e)
         let comps : List String :=
-          (if modelOk != implOk then ["outcome"] else []) ++
+          (if modelOk != implOk || (later && handlerOk != (implClass == "rej:later")) then ["outcome"] else []) ++
           (if modelOk && implOk && !respEq modelResp implResp logKnown then ["resp"] else []) ++
           (if modelPost.infos != implPost.infos then ["infos"] else []) ++
           (if !inflEq modelPost.infl implPost.infl then ["infl"] else []) ++
@@ -228,7 +232,7 @@ def processLine (acc : Acc) (line : String) : Acc :=
                               logKnown := logKnown, negative := negative }
         let viol := Spec.monitors.filterMap (fun (pid, name, f) => if f tr then none else some s!"{seq} V {pid} {name}")
         let (t1, t2) := opTag acc.env acc.cur op
-        let tag := s!"{t1}/{if implOk then "ok" else "rej"}/{t2}"
+        let tag := s!"{t1}/{if implOk then "ok" else "rej"}/{t2}{if later then "/later" else ""}"
         let l :=
           if comps.isEmpty then s!"{seq} A {tag}"
           else s!"{seq} D {tag} comps={",".intercalate comps} model={if modelOk then "ok" else "rej:" ++ modelRej} impl={implClass} " ++
